@@ -748,5 +748,34 @@ def r18_10(ctx):
     return r
 
 
+def r18_11(ctx):
+    """'RTCP arrivals can only set the RTCP destination': which arrivals ARE RTCP is decided by the second byte. RFC 5761 4
+    reserves 192..=223 for RTCP packet types when RTP and RTCP share a port. With a narrower range (200..=211) a packet
+    of type 192 (FIR, RFC 2032) or 212+ is read as RTP with the marker bit and commits the RTP destination at once.
+    Decided: the `is_rtcp` classification of IceConn::receive is a range test on packet[1] covering 192..=223."""
+    r = RuleResult("R18.11", "K6", "every RTCP packet type of RFC 5761 is classified as RTCP by the latch")
+    b = ctx.body(RECEIVE)
+    r.scope.append(RECEIVE)
+    li = [i for i, l in enumerate(b.locals) if l.get("n") == "is_rtcp"]
+    if not li:
+        raise core.CheckerError("R18.11: variable is_rtcp not found in receive")
+    lo = hi = None
+    for t in b.var_def_terms(li[0]):
+        for x in mir.walk(t):
+            if x[0] == "call" and x[1].endswith("RangeInclusive::<Idx>::new") and len(x[2]) == 2:
+                lo, hi = mir.int_value(x[2][0]), mir.int_value(x[2][1])
+            if x[0] == "agg" and isinstance(x[1], str) and x[1].endswith("ops::Range") and len(x[3]) == 2:
+                lo, hi = mir.int_value(x[3][0]), (mir.int_value(x[3][1]) or 0) - 1
+    if lo is None:
+        raise core.CheckerError("R18.11: is_rtcp is not a range test")
+    if lo <= 192 and hi >= 223:
+        r.ok({"is_rtcp": "packet[1] in %d..=%d" % (lo, hi)})
+    else:
+        r.violate(RECEIVE, "is_rtcp:range", b.where(0),
+                  "is_rtcp covers %d..=%d only: RTCP packet types outside it (RFC 5761: 192..=223) are read as RTP with the marker bit and "
+                  "move / commit the RTP destination" % (lo, hi))
+    return r
+
+
 def run(ctx):
-    return [r18_1(ctx), r18_2(ctx), r18_3(ctx), r18_4(ctx), r18_5(ctx), r18_6(ctx), r18_7(ctx), r18_8(ctx), r18_9(ctx), r18_10(ctx)]
+    return [r18_1(ctx), r18_2(ctx), r18_3(ctx), r18_4(ctx), r18_5(ctx), r18_6(ctx), r18_7(ctx), r18_8(ctx), r18_9(ctx), r18_10(ctx), r18_11(ctx)]
